@@ -274,7 +274,8 @@ def _expand(task):
     if check_self:
         self_viol = sc.check(base)
     try:
-        self_viol = list(self_viol) + list(sc.check_state(base))
+        with common.time_limit(120):
+            self_viol = list(self_viol) + list(sc.check_state(base))
         summary = sc.state_summary(base)
     except Exception as e:  # noqa
         import traceback
@@ -291,7 +292,8 @@ def _expand(task):
     for op in ops:
         w = sc.materialise(init, history)
         try:
-            v = list(sc.apply(w, op))
+            with common.time_limit(60):
+                v = list(sc.apply(w, op))
         except Exception as e:  # harness error: report loudly as violation
             import traceback
 
@@ -301,7 +303,8 @@ def _expand(task):
             continue
         fp = sc.fingerprint(w)
         try:
-            v += sc.check(w)
+            with common.time_limit(60):
+                v += sc.check(w)
         except Exception as e:  # noqa
             import traceback
 
